@@ -612,6 +612,13 @@ class Executor:
             if not getattr(self, "_break_ks", None):
                 raise Outside("break outside a loop")
             return self._break_ks[-1](st)
+        if isinstance(n, ast.Continue):
+            if not getattr(self, "_continue_ks", None):
+                raise Outside("continue outside a loop")
+            hook = self.contract.handlers.get("on_continue")
+            if hook:
+                hook(self, st, n)
+            return self._continue_ks[-1](st)
         if isinstance(n, ast.While):
             return self._loop(n, st, k)
         if isinstance(n, ast.For):
@@ -975,18 +982,19 @@ class Executor:
             k(xst)
 
     def _loop_body(self, body, st, after, break_k=None):
-        # `continue` is not in the subset (checked syntactically); `break` continues with the code after the loop,
-        # in the (inductive) state it is reached in
-        for n in ast.walk(ast.Module(body=body, type_ignores=[])):
-            if isinstance(n, ast.Continue):
-                raise Outside("continue")
+        # `break` continues with the code after the loop, in the (inductive) state it is reached in; `continue` with what follows
+        # the body (`after`: increment, invariant preservation) - a hook of the contract may state obligations at that point
         if not hasattr(self, "_break_ks"):
             self._break_ks = []
+        if not hasattr(self, "_continue_ks"):
+            self._continue_ks = []
         self._break_ks.append(break_k)
+        self._continue_ks.append(after)
         try:
             self._exec_block(body, st, after)
         finally:
             self._break_ks.pop()
+            self._continue_ks.pop()
 
     def _self_key(self, st, attr):
         o = st.env.get("self")
@@ -1595,6 +1603,10 @@ class Evaluator:
             if all(c is not None for c in cols):
                 return [tuple(x) for x in zip(*cols)]
             return None
+        if (isinstance(it, ast.Call) and isinstance(it.func, ast.Name) and it.func.id == "reversed" and "reversed" not in self.st.env
+                and len(it.args) == 1 and not it.keywords):
+            inner = self._concrete_items(it.args[0])
+            return None if inner is None else inner[::-1]
         if isinstance(it, (ast.Name, ast.Attribute, ast.Subscript, ast.Tuple, ast.List)):
             try:
                 v = self.eval(it)
